@@ -42,8 +42,8 @@ def w_c15_class(chk, names):
     from ..core import Check
     from . import c15
     sub = Check("C15", chk.repo, chk.tier)
-    c15.r5(sub)
-    c15.r1(sub)
+    sub.guard("R5", lambda: c15.r5(sub))
+    sub.guard("R1", lambda: c15.r1(sub))
     sub.guard("R9", lambda: c15.r9(sub))
     ok = True
     for n in names:
@@ -264,16 +264,16 @@ TABLE = [
      w_all(lambda chk: w_guarded_unwrap(chk, "try_parse_optional_ident", r"fork\.parse::<Member>\(\)", [r"^peek_member\(input\)$"]), w_peek_member)),
     (r"^\w+:(\w+\.)+err_ty\.as_ref\(\)\.unwrap\(\)", None, "G2",
      "validation rejects fallible instructions without an error type, for all 6 fallible conversions",
-     lambda chk: w_c15_class(chk, ["class[missing error type]", "validate_struct_attrs[Error type should be specified for fallible inst]", "validate_struct_attrs[fallible=*"] + [f"validate_struct_attrs[{k},True]" for k in ("FromOwned", "FromRef", "OwnedInto", "RefInto", "OwnedIntoExisting", "RefIntoExisting")])),
+     lambda chk: w_c15_class(chk, ["class[missing error type]", "emit[Error type should be specified for fallible inst]", "validate_struct_attrs[fallible=*"] + [f"validate_struct_attrs[{k},True]" for k in ("FromOwned", "FromRef", "OwnedInto", "RefInto", "OwnedIntoExisting", "RefIntoExisting")])),
     (r"^\w+:.*child_parents_attr\(&?(\w+\.)*ty\)\.unwrap\(\)", "^Field", "G2", "check_child_errors: every child path of an Into conversion has a child_parents instruction",
-     lambda chk: w_c15_class(chk, ["class[child without child_parents]", "check_child_errors/all-prefixes", "check_child_errors[Missing #[child_parents(...)] instruction for {}]", "validate_fields[call:check_child_errors(*"])),
+     lambda chk: w_c15_class(chk, ["class[child without child_parents]", "check_child_errors/all-prefixes", "emit[Missing #[child_parents(...)] instruction for {}]", "emit[call:check_child_errors]*"])),
     (r"^\w+:(\w+\.)*child_parents\.(iter\(\)\.)?find\(", "^Field", "G2", "check_child_errors: every prefix of every child path has an entry",
-     lambda chk: w_c15_class(chk, ["class[child without child_parents]", "check_child_errors/all-prefixes", "check_child_errors[Missing '{}: [Type Path]' instruction for type {]", "validate_fields[call:check_child_errors(*"])),
+     lambda chk: w_c15_class(chk, ["class[child without child_parents]", "check_child_errors/all-prefixes", "emit[Missing '{}: [Type Path]' instruction for type {]", "emit[call:check_child_errors]*"])),
     (r"^\w+:(\w+\.)*sub_path\[\w+\]\.1\.as_ref\(\)\.unwrap\(\)", None, "G2", "validate_parent_attrs: nested parent fields must be typed for From conversions",
-     lambda chk: w_c15_class(chk, ["class[untyped nested parent]", "validate_parent_attrs[Field '{0}' should have type here, e.g. '{0}: So]", "validate[call:validate_parent_attrs(*"])),
+     lambda chk: w_c15_class(chk, ["class[untyped nested parent]", "emit[Field '{0}' should have type here, e.g. '{0}: So]", "emit[call:validate_parent_attrs]*"])),
     (r"^struct_post_init:todo!\(\)", None, "G2", "bare #[parent] on an enum variant is rejected by validation (bark_at_member_attr)", w_parent_bark),
     (r"^render_struct_line:unreachable!\('6'\)", "^Field$", "G2", "tuple field without instruction under a struct-form hint is rejected by validate_fields / validate_variant_fields (top-level hint)",
-     lambda chk: w_c15_class(chk, ["class[tuple/named mismatch (struct)]", "class[tuple/named mismatch (variant)]", "validate_fields[Member {} should have member trait instruction w]", "validate_variant_fields[Member {} of a variant {} should have member tra]"])),
+     lambda chk: w_c15_class(chk, ["class[tuple/named mismatch (struct)]", "class[tuple/named mismatch (variant)]", "emit[Member {} should have member trait instruction w]", "emit[Member {} of a variant {} should have member tra]"])),
     (r"^struct_init_block_inner:unreachable!\('2'\)", "^$", "G3", "top level: struct_init_block returns early for non-From + hint Unit", w_struct_init_block_guard),
     (r"^DataType::named_fields:panic!", None, "G3", "named_fields() is only called from the struct renderers, which are entered with a (real or synthetic) Struct", w_named_fields_callers),
     (r"^validate_error_instrs:unreachable!\('13'\)", None, "G3", "error_instrs only ever holds the diagnostic variants, all of which validate_error_instrs matches",
